@@ -37,6 +37,8 @@ func runC05(e *Env) {
 	ruleC05Digit(e)
 	ruleC05Strict(e, hyph)
 	ruleC05Ver(e)
+	ruleC05Reject(e)
+	e.S.Floor("C05.reject", 3)
 	ruleErrZero(e, "C05.errzero", "uu")
 	ruleWrap(e, "C05.wrap", "uu")
 	ruleLimitAccept(e, "C05.limit", "uu")
@@ -49,6 +51,85 @@ func runC05(e *Env) {
 	e.S.Floor("C05.strict", 8)
 	e.S.Floor("C05.ver", 9)
 	e.S.Floor("C05.limit", 2)
+}
+
+// ruleC05Reject: what the digit function refuses, the parser refuses (the other C05 rules summarise the digit function
+// as "valid" and so never look at the failing side); upper-case digits are admitted exactly when
+// RuleDisableUpperCaseDigits is clear; the default limit admits the longest form the formatter writes; ID.URN renders
+// the receiver.
+func ruleC05Reject(e *Env) {
+	const rule = "C05.reject"
+	dp := e.Fn(rule, "uu", "DefaultParser")
+	pd := e.Fn(rule, "uu", "parseDigit")
+	if dp == nil || pd == nil {
+		return
+	}
+	site := flow.FnName(dp)
+	calls := e.C.Calls(dp, func(f *ssa.Function) bool { return flow.Origin(f) == pd })
+	if len(calls) == 0 {
+		e.S.Unk(rule, site, "invalid digit", "the parser does not call the digit function", e.Pos(dp))
+	}
+	perm := e.ParamPerm("uu", "parseDigit", pd)
+	for _, call := range calls {
+		// the ok result branches, and its false edge leads only to error returns
+		decided := false
+		for _, r := range *call.Referrers() {
+			ex, ok := r.(*ssa.Extract)
+			if !ok || !types.Identical(ex.Type(), types.Typ[types.Bool]) {
+				continue
+			}
+			for _, rr := range *ex.Referrers() {
+				iff, ok := rr.(*ssa.If)
+				if !ok || iff.Cond != ssa.Value(ex) {
+					continue
+				}
+				decided = true
+				if flow.LeadsOnlyToErrors(iff.Block().Succs[1]) {
+					e.S.Ok(rule, site, "invalid digit", "a byte the digit function refuses leads only to error returns", e.posOf(call))
+				} else {
+					e.S.Bad(rule, site, "invalid digit", "a byte the digit function refuses does not always end in an error: a non-hexadecimal digit can be accepted", e.posOf(iff), "00000000-0000-0000-zzzz-zzzzzzzzzzzz")
+				}
+			}
+		}
+		if !decided {
+			e.S.Bad(rule, site, "invalid digit", "the digit function's verdict is not tested directly (the ok result must decide a branch whose false edge only returns errors)", e.posOf(call), "")
+		}
+		// the upper-case permission is `r & RuleDisableUpperCaseDigits == 0`, nothing more
+		bi := 1
+		if perm != nil && len(perm) == 2 {
+			bi = perm[1]
+		}
+		bit, okBit := tabConstInt(e, "uu", "RuleDisableUpperCaseDigits")
+		gate := false
+		if bi < len(call.Call.Args) && okBit {
+			if bo, ok := call.Call.Args[bi].(*ssa.BinOp); ok && bo.Op == token.EQL {
+				if k, isC := flow.ConstInt(bo.Y); isC && k == 0 {
+					if and, ok := bo.X.(*ssa.BinOp); ok && and.Op == token.AND {
+						m, isM := flow.ConstInt(and.Y)
+						if isM && m == bit && flow.RootParam(and.X) == dp.Params[len(dp.Params)-1] {
+							gate = true
+						}
+					}
+				}
+			}
+		}
+		if gate {
+			e.S.Ok(rule, site, "upper-case gate", "upper-case digits are admitted exactly when r&RuleDisableUpperCaseDigits == 0", e.posOf(call))
+		} else {
+			e.S.Bad(rule, site, "upper-case gate", "the permission for upper-case digits handed to the digit function is not exactly `r&RuleDisableUpperCaseDigits == 0`: the form the rule disables can get through (or is refused without the rule)", e.posOf(call), "both rules set")
+		}
+	}
+	// default limit: 0 or at least the URN form (36 + len(\"urn:uuid:\"))
+	if g := e.Var(rule, "uu", "MaxInputLength"); g != nil {
+		prefix := tabConstString(e, "uu", "URNPrefix")
+		if v, ok := e.globalIntInit(g); !ok {
+			e.S.Unk(rule, "uu.MaxInputLength", "default", "initial value is not a constant", "")
+		} else if v != 0 && v < int64(36+len(prefix)) {
+			e.S.Bad(rule, "uu.MaxInputLength", "default", fmt.Sprintf("the default limit %d is below the %d bytes of the URN form the formatter writes: it does not parse back", v, 36+len(prefix)), "", "id.UnmarshalText([]byte(id.URN()))")
+		} else {
+			e.S.Ok(rule, "uu.MaxInputLength", "default", fmt.Sprintf("default limit %d admits the URN form (%d bytes)", v, 36+len(prefix)), "")
+		}
+	}
 }
 
 // ---- C05.layout
@@ -167,6 +248,11 @@ func ruleC05Layout(e *Env) (widths []int, hyph []int) {
 			}
 			w := 4 * ws[k]
 			bad := ""
+			// %0Wx prints exactly W digits only for a non-negative value below 16^W: a signed operand with its top bit
+			// set prints a minus sign
+			if bt, isB := ifc.Dyn.Underlying().(*types.Basic); !isB || bt.Info()&types.IsUnsigned == 0 {
+				bad = fmt.Sprintf("the operand has the signed type %s: a value with its top bit set is printed with a minus sign", ifc.Dyn)
+			}
 			for i, b := range bits.B {
 				if i >= w {
 					if b.K != '0' {
